@@ -68,10 +68,14 @@ TARGETS = [
     ('utf8_convert_from_latin_1', 'void (char *, const char *, size_t)'),
     ('utf16_convert_from_utf32', '_ST_PRIVATE::conversion_error_t (char16_t *, const char32_t *, size_t, ST::utf_validation_t)'),
     ('utf8_convert_from_utf32', '_ST_PRIVATE::conversion_error_t (char *, const char32_t *, size_t, ST::utf_validation_t)'),
+    ('utf32_convert_from_utf8', '_ST_PRIVATE::conversion_error_t (char32_t *, const char *, size_t, ST::utf_validation_t)'),
+    ('utf32_convert_from_utf16', '_ST_PRIVATE::conversion_error_t (char32_t *, const char16_t *, size_t, ST::utf_validation_t)'),
+    ('utf16_convert_from_utf8', '_ST_PRIVATE::conversion_error_t (char16_t *, const char *, size_t, ST::utf_validation_t)'),
 ]
 # a pointer parameter that points into the array of another parameter (one past its end): it is passed as an index
 # functions whose first `T *` parameter with a non-const pointee is a write-only cursor (used only as `*p++ = e`)
-PLAIN_CURSOR_FUNCS = ('utf8_convert_from_latin_1', 'utf16_convert_from_utf32', 'utf8_convert_from_utf32')
+PLAIN_CURSOR_FUNCS = ('utf8_convert_from_latin_1', 'utf16_convert_from_utf32', 'utf8_convert_from_utf32', 'utf32_convert_from_utf8',
+                      'utf32_convert_from_utf16', 'utf16_convert_from_utf8')
 ALIAS_PARAMS = {('extract_utf8', 'end'): 'utf8', ('extract_utf16', 'end'): 'utf16'}
 # a translated function that returns a pointer returns it into the array of this parameter
 RET_BASE_PARAM = 0
@@ -320,6 +324,17 @@ class Translator:
             base, idx = ptrs[RET_BASE_PARAM]
             return (base, r if idx == '(0)' else '(if Z.eqb %s (-1) then (-1) else (%s + %s))' % (r, idx, r))
         return (None, r)
+
+    def contains_outcall(self, n):
+        if not isinstance(n, dict):
+            return False
+        if n.get('kind') == 'DeclRefExpr':
+            t = self.target_of(n.get('referencedDecl') or {})
+            if t is not None and any('*&' in (c.get('type') or {}).get('qualType', '').replace(' ', '')
+                                     and not (c.get('type') or {}).get('qualType', '').strip().startswith('const ')
+                                     for c in (self.funcs[(t[0], t[1])][0].get('inner') or []) if isinstance(c, dict) and c.get('kind') == 'ParmVarDecl'):
+                return True
+        return any(self.contains_outcall(c) for c in (n.get('inner') or []))
 
     def out_actual(self, env):
         return [env[('out', self.out_cursor)]] if self.out_cursor is not None else []
@@ -766,7 +781,7 @@ class Translator:
                 e = self.stmts([els] if els is not None else rest, env)
                 return self.with_binds(binds, '(if z2b %s then %s else %s)' % (cond, t, e))
         if k == 'IfStmt' and (contains_kind(s, ('ReturnStmt', 'ContinueStmt')) or
-                              (self.out_cursor is not None and contains_store(s, self.out_cursor))):
+                              (self.out_cursor is not None and (contains_store(s, self.out_cursor) or self.contains_outcall(s)))):
             # some path returns, some falls through: the rest of the block is translated in both branches
             cond, _, binds = self.full_expr(inner[0], env)
             t = self.stmts([inner[1]] + rest, env)
@@ -846,6 +861,8 @@ class Translator:
                 finally:
                     self.pending, self.binds = None, None
                 for pv, _ in pend:
+                    if isinstance(pv, tuple):
+                        continue
                     if pv == vid or self.count_refs(s, pv) != 1:
                         raise Unsupported('a variable incremented inside an expression occurs elsewhere in it')
             else:
